@@ -14,10 +14,58 @@ import (
 )
 
 type (
-	Pool   = sync.Pool
 	Map    = sync.Map
 	Locker = sync.Locker
 )
+
+// Pool is a simulated sync.Pool. The real one is a source of nondeterminism
+// (per-P caches, items dropped by the garbage collector) and, being usually a
+// package-level variable, carries state from one run of a worker process into
+// the next. This one is emptied at the start of every run; Get returns one of
+// the pooled items or none (the real pool may have dropped any of them), as
+// drawn from the schedule tape, so a run replays exactly. Draw 0 is "the item
+// put most recently".
+type Pool struct {
+	New   func() any
+	items []any
+	sim   *simrt.Sim
+	hb    byte
+}
+
+//go:norace
+func (p *Pool) Get() any {
+	if inSim() {
+		if p.sim != simrt.S {
+			p.items, p.sim = nil, simrt.S
+		}
+		if n := len(p.items); n > 0 {
+			if i := simrt.S.Sched.Draw(n + 1); i < n {
+				j := n - 1 - i
+				x := p.items[j]
+				p.items = append(p.items[:j], p.items[j+1:]...)
+				simrt.RaceAcquire(unsafe.Pointer(&p.hb))
+				simrt.Probe("pool_item_reused")
+				return x
+			}
+		}
+	}
+	if p.New != nil {
+		return p.New()
+	}
+	return nil
+}
+
+//go:norace
+func (p *Pool) Put(x any) {
+	if x == nil || !inSim() {
+		return
+	}
+	if p.sim != simrt.S {
+		p.items, p.sim = nil, simrt.S
+	}
+	simrt.RaceReleaseMerge(unsafe.Pointer(&p.hb))
+	p.items = append(p.items, x)
+}
 
 // real is used when no simulation is active (package init, post-run code).
 func inSim() bool { return simrt.S != nil && simrt.Cur() != nil }
